@@ -3,7 +3,7 @@
    its differential run): forgetting the chain, [eval_c] / [build_c] /
    [evaluate_c] are [eval_f] / [build_f] / [evaluate_f] — same state, same
    value, same error class. *)
-From Coq Require Import List Arith Bool Lia.
+From Coq Require Import List Arith Bool Lia ZArith.
 From PV Require Import Lib.Py Model.Graph Model.Fail Model.Validate Model.ValidateFail.
 Import ListNotations.
 
@@ -92,3 +92,87 @@ Section Erase.
     rewrite eval_c_erase. destruct (eval_c (S (wb_n W)) (st_cache s1) n) as [c v]. reflexivity.
   Qed.
 End Erase.
+
+(* ------------------------------------------------ the two dictionaries of [failed]
+   every entry appended by the except branch sits in exactly one of the two
+   dictionaries — 'not-implemented' iff [not_implemented] of its chain — under
+   the text of [key_of] its chain; nothing else is in them *)
+Section BucketsFacts.
+  Variable fpre : nat -> option nat.
+  Variable fnimp : nat -> bool.
+  Variable ktext : exckey -> list Z.
+
+  Definition in_bucket (b : bucket) (k : list Z) (e : entry) : Prop :=
+    exists k' es, In (k', es) b /\ zs_eqb k' k = true /\ In e es.
+
+  Lemma zs_eqb_refl a : zs_eqb a a = true.
+  Proof. induction a as [|x a IH]; cbn; auto. now rewrite Z.eqb_refl. Qed.
+  Lemma zs_eqb_eq a : forall b, zs_eqb a b = true -> a = b.
+  Proof.
+    induction a as [|x a IH]; intros [|y b] H; cbn in H; try discriminate; auto.
+    apply andb_prop in H. destruct H as [H1 H2]. apply Z.eqb_eq in H1. subst. f_equal. auto.
+  Qed.
+
+  Lemma bucket_add_in b k e : forall k0 x,
+    in_bucket (bucket_add b k e) k0 x <-> in_bucket b k0 x \/ (zs_eqb k k0 = true /\ x = e).
+  Proof.
+    induction b as [|[k1 es1] b IH]; intros k0 x; cbn [bucket_add].
+    - split.
+      + intros (k' & es & [H|[]] & E & I). injection H as E1 E2; subst k' es. destruct I as [<-|[]]. auto.
+      + intros [(k' & es & [] & _)|[E ->]]. exists k; exists [e]. cbn. auto.
+    - destruct (zs_eqb k1 k) eqn:K.
+      + apply zs_eqb_eq in K. subst k1. split.
+        * intros (k' & es & [H|H] & E & I).
+          -- injection H as E1 E2; subst k' es. apply in_app_or in I. destruct I as [I|[<-|[]]]; auto.
+             left. exists k; exists es1. cbn. auto.
+          -- left. exists k'; exists es. cbn. auto.
+        * intros [(k' & es & [H|H] & E & I)|[E ->]].
+          -- injection H as E1 E2; subst k' es. exists k; exists (es1 ++ [e]). cbn. repeat split; auto. apply in_or_app. auto.
+          -- exists k'; exists es. cbn. auto.
+          -- exists k; exists (es1 ++ [e]). cbn. repeat split; auto. apply in_or_app. right. left. auto.
+      + split.
+        * intros (k' & es & [H|H] & E & I).
+          -- injection H as E1 E2; subst k' es. left. exists k1; exists es1. cbn. auto.
+          -- destruct (proj1 (IH k0 x)) as [(k2 & es2 & H2 & E2 & I2)|R]; [exists k'; exists es; auto| |auto].
+             left. exists k2; exists es2. cbn. auto.
+        * intros [(k' & es & [H|H] & E & I)|R].
+          -- exists k'; exists es. cbn. auto.
+          -- destruct (proj2 (IH k0 x)) as (k2 & es2 & H2 & E2 & I2); [left; exists k'; exists es; auto|].
+             exists k2; exists es2. cbn. auto.
+          -- destruct (proj2 (IH k0 x)) as (k2 & es2 & H2 & E2 & I2); [right; auto|].
+             exists k2; exists es2. cbn. auto.
+  Qed.
+
+  Theorem failed_buckets_spec l : forall k x,
+    (in_bucket (fst (failed_buckets fpre fnimp ktext l)) k x <->
+       In x l /\ not_implemented fpre fnimp (snd x) = true /\ ktext (key_of fpre (snd x)) = k) /\
+    (in_bucket (snd (failed_buckets fpre fnimp ktext l)) k x <->
+       In x l /\ not_implemented fpre fnimp (snd x) = false /\ ktext (key_of fpre (snd x)) = k).
+  Proof.
+    unfold failed_buckets.
+    assert (Gen: forall l acc k x,
+      (in_bucket (fst (fold_left (failed_add fpre fnimp ktext) l acc)) k x <->
+         in_bucket (fst acc) k x \/
+         (In x l /\ not_implemented fpre fnimp (snd x) = true /\ ktext (key_of fpre (snd x)) = k)) /\
+      (in_bucket (snd (fold_left (failed_add fpre fnimp ktext) l acc)) k x <->
+         in_bucket (snd acc) k x \/
+         (In x l /\ not_implemented fpre fnimp (snd x) = false /\ ktext (key_of fpre (snd x)) = k))).
+    { clear l. induction l as [|e l IH]; intros acc k x; cbn [fold_left].
+      - split; split; auto; intros [H|([] & _)]; auto.
+      - destruct (IH (failed_add fpre fnimp ktext acc e) k x) as [A B]. rewrite A, B.
+        unfold failed_add. destruct (not_implemented fpre fnimp (snd e)) eqn:NI; cbn [fst snd];
+          rewrite ?bucket_add_in; split; split.
+        all: cbn [In]; intros H;
+          repeat match goal with
+                 | H : _ \/ _ |- _ => destruct H
+                 | H : _ /\ _ |- _ => destruct H
+                 end; subst; auto;
+          try congruence;
+          try (right; split; [left; reflexivity|split; [assumption|now apply zs_eqb_eq]]);
+          try (left; right; split; [apply zs_eqb_refl|reflexivity]);
+          try (right; split; [right; assumption|split; [assumption|reflexivity]]);
+          try tauto. }
+    intros k x. destruct (Gen l ([], []) k x) as [A B]. rewrite A, B. cbn [fst snd].
+    split; split; auto; intros [(k' & es & [] & _)|H]; auto.
+  Qed.
+End BucketsFacts.
